@@ -75,12 +75,10 @@ class ExprOps:
 
     def ev_Dict(self, node):
         items = [(self.ev(k), self.ev(v)) for k, v in zip(node.keys, node.values)]
-        if all(k.is_const and v.is_const for k, v in items):
+        if items and all(k.is_const and v.is_const for k, v in items):
             return SV('dict', const={k.const: v.const for k, v in items}, extra={'items': items},
                       ty=parse_ty('dict[any,any]'))
-        if not items:
-            return self.new_dict()
-        raise Unsupported('non-constant dict literal', node)
+        return SV('dict', owned=True, extra={'items': items}, ty=parse_ty('dict[any,any]'))
 
     def new_dict(self, ty='dict[any,any]'):
         st = self.st
@@ -541,7 +539,7 @@ class ExprOps:
                 return TRUE if x.const in cont.const else FALSE
             return "(str.contains %s %s)" % (cont.term, x.term)
         if cont.kind == 'dict':
-            if cont.is_const:
+            if cont.is_const or cont.owned:
                 return mk_or(*[self.py_eq(x, k) for k, _ in cont.extra['items']])
             return self.dict_has(cont, x)
         raise Unsupported('membership in %s' % cont.kind, node)
@@ -692,6 +690,15 @@ class ExprOps:
                 raise Unsupported('non-int index', node)
             return self.seq_at(base, idx, node.lineno, check=not self.spec_mode)
         if base.kind == 'dict':
+            if base.owned:
+                for k, v in base.extra['items']:
+                    c = self.py_eq(idx, k)
+                    if c == TRUE:
+                        return v
+                    if c != FALSE:
+                        raise Unsupported('owned dict lookup with undecided key', node)
+                st.oblige(FALSE, 'KeyError', node.lineno)
+                raise PathInfeasible()
             if base.is_const:
                 raise Unsupported('subscript of constant dict', node)
             if not self.spec_mode:
@@ -828,35 +835,44 @@ class ExprOps:
         saved = dict(st.env)
         mark = len(st.pc)
         nob = len(st.obligations)
-        item = it['item'](j)
-        self.bind_target(g.target, item)
-        heap_before = dict(st.heap)
-        other_before = (st.seqh, st.ddom, st.dval, dict(st.ghost))
-        val = self.ev(elt)
-        bval = self.box(val)
-        st.env = saved
-        if (st.seqh, st.ddom, st.dval) != other_before[:3] or any(st.ghost.get(k) is not v for k, v in other_before[3].items()):
-            raise Unsupported('list/dict/ghost effects inside a comprehension over a symbolic sequence', node)
-        for a in list(st.heap):
-            if heap_before.get(a) != st.heap[a]:
-                # the body ran for every element: every object may have been written
-                st.heap[a] = st.decls.const('H_' + a, '(Array Int Val)')
-                st.bump(a)
-        side = [t for t, _ in st.pc[mark:]]
-        del st.pc[mark:]
         rng = mk_and(mk_le('0', j), mk_lt(j, n))
-        for ob in st.obligations[nob:]:
-            # obligations inside the body hold for every index
-            ob.goal = "(forall ((%s Int)) (=> %s %s))" % (j, mk_and(rng, *side), ob.goal)
-            ob.assumptions = ob.assumptions[:mark]
+        try:
+            item = it['item'](j)
+            self.bind_target(g.target, item)
+            heap_before = dict(st.heap)
+            other_before = (st.seqh, st.ddom, st.dval, dict(st.ghost))
+            val = self.ev(elt)
+            bval = self.box(val)
+            st.env = saved
+            if (st.seqh, st.ddom, st.dval) != other_before[:3] or any(st.ghost.get(k) is not v for k, v in other_before[3].items()):
+                raise Unsupported('list/dict/ghost effects inside a comprehension over a symbolic sequence', node)
+            for a in list(st.heap):
+                if heap_before.get(a, st.decls.base_heap.get(a)) != st.heap[a]:
+                    # the body ran for every element: every object may have been written
+                    st.heap[a] = st.decls.const('H_' + a, '(Array Int Val)')
+                    st.bump(a)
+            side = [t for t, k in st.pc[mark:] if k in ('wf', 'def', 'lib')]
+            cside = [t for t, k in st.pc[mark:] if k not in ('wf', 'def', 'lib')]
+            del st.pc[mark:]
+        finally:
+            # obligations raised inside the body hold for every index of the range
+            side_now = [t for t, _ in st.pc[mark:]]
+            for ob in st.obligations[nob:]:
+                pre = [t for t, _ in ob.assumptions[mark:]]
+                ob.goal = "(forall ((%s Int)) %s)" % (j, mk_implies(mk_and(rng, *pre), ob.goal))
+                ob.assumptions = ob.assumptions[:mark]
         del st.decls.consts[j]
         # hash-consing: the sequence is determined by the (canonical) text of its defining body
         import hashlib
-        canon = (n + '|' + bval + '|' + '&'.join(side)).replace(j, '$J')
+        canon = (n + '|' + bval + '|' + '&'.join(cside)).replace(j, '$J')
         q = 'qc_' + hashlib.sha1(canon.encode()).hexdigest()[:12]
+        import os
+        if os.environ.get('PYVC_DEBUG'): print('CANON', q, canon[:600])
         st.decls.consts[q] = 'Int'
         st.assume(mk_eq("(len %s)" % q, n), 'def')
-        body = mk_implies(rng, mk_and(*(side + [mk_eq("(at %s %s)" % (q, j), bval)])))
+        # unconditional facts (typing, definitions) hold for every index; facts that stem from a
+        # case split inside the body only guard the element equation
+        body = mk_implies(rng, mk_and(*(side + [mk_implies(mk_and(*cside), mk_eq("(at %s %s)" % (q, j), bval))])))
         st.assume("(forall ((%s Int)) (! %s :pattern ((at %s %s))))" % (j, body, q, j), 'def')
         ety = val.ty if val.kind != 'val' else val.ty
         lty = frozenset([('list', ety if ety else ANY)])
